@@ -66,11 +66,10 @@ func checkC06(r *mon.Run) {
 		"an SCMP answer to an offending packet is required to be a parameter problem; its code is recorded, not judged",
 	}
 	r.Exhaustive = true // the (pair x mode x scope) table is enumerated completely; contents are sampled
-	rng := r.Rand("c06")
-	nStars := r.Pick(3, 10)
-	reps := r.Pick(4, 40)
+	nStars := r.Pick(12, 48)
+	reps := r.Pick(12, 100)
 	types := []topology.LinkType{topology.Unset, topology.Core, topology.Parent, topology.Child, topology.Peer}
-	for si := 0; si < nStars; si++ {
+	forStars(r, nStars, func(si int, rng *rand.Rand) {
 		key := make([]byte, 16)
 		for i := range key {
 			key[i] = byte(rng.IntN(256))
@@ -139,7 +138,7 @@ func checkC06(r *mon.Run) {
 				}
 			}
 		}
-	}
+	})
 	r.Require(1000, 100, "allowed_forwarded", "illegal_rejected_scmp", "inside_xover_rejected_scmp")
 }
 
